@@ -22,7 +22,7 @@ CLAIMS = {
   note="Handler bodies are trusted; State.Selected, Connector.Authorize are abstract models. Undecided: jail timing (timer/WaitGroup), what handleLogin does with the state after GetState (its contract says modifies heap), handleIdle, cross-user isolation of files.",
   ref="DESIGN.md §4 C18"),
  "C03": dict(
-  text="Deductive proof of the Go side of every bulk database operation behind APPEND/STORE/EXPUNGE/COPY/MOVE: for every list length (below, at and beyond the 1000/500 statement-batching limit) each statement handed to the driver has exactly as many arguments as `?` placeholders and begins with the statement kind its helper expects; the statements of chunk k of the twelve chunked operations carry exactly the k-th chunk of the input, in order, followed by the trailing arguments (call-site assertions over the boxed arguments); chunked reads return every row of every chunk; STORE FLAGS always writes the replacement set (also the empty one) and -FLAGS compares flags without regard to case; no index/nil/overflow obligation remains open. Five genuine defects found this way were repaired (IDs beyond the first chunk never removed; flags set on the first message of a chunk only; MailboxExistsWithID misspelled; STORE FLAGS () kept the old flags; -FLAGS in another letter case kept the flag).",
+  text="Deductive proof of the Go side of every bulk database operation behind APPEND/STORE/EXPUNGE/COPY/MOVE: for every list length (below, at and beyond the 1000/500 statement-batching limit) each statement handed to the driver has exactly as many arguments as `?` placeholders and begins with the statement kind its helper expects; the statements of chunk k of the twelve chunked operations carry exactly the k-th chunk of the input, in order, followed by the trailing arguments (call-site assertions over the boxed arguments); chunked reads return every row of every chunk; STORE FLAGS always writes the replacement set (also the empty one) and the per-mailbox \\Deleted column, -FLAGS compares flags without regard to case; EXPUNGE / UID EXPUNGE hand the removal transaction only ids of messages of the view that carry the \\Deleted mark; no index/nil/overflow obligation remains open. Five genuine defects found this way were repaired (IDs beyond the first chunk never removed; flags set on the first message of a chunk only; MailboxExistsWithID misspelled; STORE FLAGS () kept the old flags; -FLAGS in another letter case kept the flag).",
   note="Assumes: the trusted placeholder precondition of the SQL helper functions (go-sqlite3 ignores surplus arguments), fmt.Sprintf/strings.Join/Repeat placeholder arithmetic, xslices.Chunk specification, SQLite executes the text as written. Undecided: the SQL text itself, the reference semantics of whole command sequences, flag algebra, store bytes, NO/BAD roll-back (wrapTx).",
   ref="DESIGN.md §4 C03"),
  "C04": dict(
@@ -46,7 +46,7 @@ CLAIMS = {
   note="Assumes 0 <= offset, 0 < count <= 2^32-1 at WithPartial's call site (established by the parser's number bound, C16). Undecided: Header.Fields/FieldsNot loops over the linked list, SetHeaderValueNoMemCopy, literal framing, store round trip (C09).",
   ref="DESIGN.md §4 C13"),
  "C10": dict(
-  text="Deductive proof that the scanner classifies every byte value into exactly the RFC 3501 character class (total, loop-free, so complete), that ByteToLower/ByteToInt are the arithmetic they claim, that the token look-ahead of the parser is the next unread byte of the source, and that number / sequence-number / sequence-range / sequence-set parsers return values within the ranges written. Keywords are matched case-insensitively: the case-sensitive matcher Parser.ConsumeBytes has no caller in the module (syntactic whole-module obligation). Composite commands (fetch attributes, search keys, ...) are not under functional contract.",
+  text="Deductive proof that the scanner classifies every byte value into exactly the RFC 3501 character class (total, loop-free, so complete), that ByteToLower/ByteToInt are the arithmetic they claim, that the token look-ahead of the parser is the next unread byte of the source, and that number / sequence-number / sequence-range / sequence-set parsers return values within the ranges written. Every RFC 3501 ATOM-CHAR / ASTRING-CHAR is accepted as one (known finding: `[` is refused) and an unquoted astring stops exactly in front of the first byte that is no ASTRING-CHAR. Keywords are matched case-insensitively: the case-sensitive matcher Parser.ConsumeBytes has no caller in the module (syntactic whole-module obligation). Composite commands (fetch attributes, search keys, ...) are not under functional contract.",
   note="Assumes the Reader model (finite byte sequence then EOF forever, trusted spec of Reader.ReadByte). Undecided: exact decimal value of numbers, strings/literals, dates, composite command grammar, case-insensitivity of keywords, chunking independence beyond byte-wise reads.",
   ref="DESIGN.md §4 C10"),
  "C11": dict(
@@ -54,7 +54,7 @@ CLAIMS = {
   note="Assumes the Reader model. Undecided so far: ParseQuoted/ParseLiteral/atoms, command.Parser.Parse tag handling, recursion depth of search keys, session loop (one completion per command), process RSS.",
   ref="DESIGN.md §4 C11"),
  "C16": dict(
-  text="Deductive proof, for every sequence set and every view size, that written numbers fit 32 bits (type invariant of SeqNum established by the parser), that resolution of numbers/ranges/'*' yields the RFC interval (min/max, '*' = last), that a sequence-number set fails with ErrNoSuchMessage exactly when some number lies beyond the message count or the view is empty, that every returned message is the one at its sequence number and lies in a requested range, and that UID sets never fail on a non-empty view and return only messages whose UID lies in a requested range.",
+  text="Deductive proof, for every sequence set and every view size, that written numbers fit 32 bits (type invariant of SeqNum established by the parser), that resolution of numbers/ranges/'*' yields the RFC interval (min/max, '*' = last), that a sequence-number set fails with ErrNoSuchMessage exactly when some number lies beyond the message count or the view is empty, that every returned message is the one at its sequence number and lies in a requested range, and that UID sets never fail on a non-empty view and return only messages whose UID lies in a requested range; the FETCH and STORE handlers answer BAD (not NO, not an error) when the state reports a sequence set beyond the view.",
   note="Assumes dependency specs (BinarySearchFunc), sorted/indexed snapshot invariant at entry (proved preserved under C01). Undecided: completeness of the concatenation across ranges (proved per range in seqRange/uidRange only), mapping of ErrNoSuchMessage to BAD in the handlers, SEARCH sequence-set keys. Known deviation pinned by the existing tests: `n:*` with n above the highest UID selects nothing (RFC 3501 says it includes the last message) — see DESIGN.md.",
   ref="DESIGN.md §4 C16"),
  "C17": dict(
